@@ -218,7 +218,7 @@ func c17Decls(label string) (ast.Entities, ast.Enums, ast.Actions, ast.CommonTyp
 	if c17Pick(6, label+".enum", 2) == 1 {
 		enums["E"] = ast.Enum{Values: []types.String{"x", c17Name(6, label+".enum-value")}}
 	}
-	cts := ast.CommonTypes{"T": ast.CommonType{Type: ast.Long()}}
+	cts := ast.CommonTypes{"T": ast.CommonType{Type: ast.Long()}, "R": ast.CommonType{Type: ast.RecordType{"g": ast.Attribute{Type: ast.Long()}, "h": ast.Attribute{Type: ast.Bool(), Optional: true}}}}
 	if c17Pick(7, label+".common-record", 2) == 1 {
 		cts["T"] = ast.CommonType{Type: ast.RecordType{"f": ast.Attribute{Type: ast.String()}}, Annotations: ast.Annotations{"a": "b"}}
 	}
@@ -239,7 +239,10 @@ func c17Decls(label string) (ast.Entities, ast.Enums, ast.Actions, ast.CommonTyp
 	if label != "ns" {
 		acts["root"] = ast.Action{}
 	}
-	switch c17Pick(9, label+".appliesTo", 4) {
+	switch c17Pick(9, label+".appliesTo", 5) {
+	case 4:
+		// the context named by a common type instead of written inline
+		view.AppliesTo = &ast.AppliesTo{Principals: []ast.EntityTypeRef{"A"}, Resources: []ast.EntityTypeRef{"B"}, Context: ast.TypeRef("R")}
 	case 1:
 		view.AppliesTo = &ast.AppliesTo{Principals: []ast.EntityTypeRef{"A"}, Resources: []ast.EntityTypeRef{"A", "B"}}
 	case 2:
